@@ -639,13 +639,21 @@ end Lomond.Gen
         changed.append('Facts.lean')
     # ---- code (not only tables): harness/py2lean.py -> Generated/Code.lean ------------------------
     # a site outside the translated subset is a problem and leaves a `Py.Untranslated` definition
-    code_lean, code_problems, code_defs = py2lean.generate(REPO)
+    # A site that can no longer be retranslated (the source was restructured) falls back to the definition last translated from
+    # the source, PROVIDED the differential test of generated definitions covers it (gencheck.GROUPS): the tie to the current
+    # source is then that test on this run (reported as `fallbacks`); sites without such a test become `Py.Untranslated`.
+    try:
+        import gencheck
+        covered = {n for names in gencheck.GROUPS.values() for n in names}
+    except Exception:  # noqa
+        covered = set()
+    code_lean, code_problems, code_defs = py2lean.generate(REPO, fallback_sites=covered)
     problems += code_problems
     if write_if_changed(os.path.join(GEN, 'Code.lean'), code_lean):
         changed.append('Code.lean')
-    return dict(problems=problems, changed=changed, facts=facts, code_defs=sorted(code_defs))
+    return dict(problems=problems, changed=changed, facts=facts, code_defs=sorted(code_defs), fallbacks=list(py2lean.FALLBACKS))
 
 
 if __name__ == '__main__':
     r = translate()
-    print(json.dumps(dict(problems=r['problems'], changed=r['changed']), indent=1))
+    print(json.dumps(dict(problems=r['problems'], changed=r['changed'], fallbacks=r.get('fallbacks', [])), indent=1))
